@@ -95,6 +95,7 @@ From CSS Require Import Base.Sx Spec.Extractor Spec.ExtractorProofs
   Parallel.EndToEnd Parallel.EqSecond Parallel.EqTerm Parallel.EqSound Parallel.Fuel Parallel.InfoModel
   Parallel.InfoProofs Parallel.InfoTotal Parallel.Final Parallel.Examples Parallel.Run Parallel.RunTotal.
 From CSS Require Spec.Grouping Spec.GroupingWf Spec.GroupingInit Parallel.CtorReach Parallel.CtorBridge.
+From CSS Require Equiv.Model Equiv.Hist Spec.ExtractorEquiv.
 Import ListNotations.
 
 (* ---------------------------------------------------------------- the output is a matched pair *)
@@ -190,6 +191,27 @@ Theorem C13_spec_from_label_map : forall rep fpath stored (d : smap) root_eq sta
     dom dict start = true /\
     (forall e, In e dict -> In e stored \/ exists l t p c, step_of (fpath l t) p c /\ e = (p, [c])).
 Proof. intros rep fpath stored d root_eq start order fuel keys Hf. exact (spec_from_label_map rep fpath Hf stored d root_eq start order fuel keys). Qed.
+
+(* C06 -> C13 (CLAUSES G.2 row 6): the contract `fpath_ok` that C13_two_rule_sets / C13_spec_from_label_map assume
+   of the path oracle HOLDS of the equivalence database: for the state `s` the model of EquivalenceDB reaches after
+   ANY history over natural-number labels, db[.] and find_path (as pure functions, Spec/ExtractorEquiv.v natrep /
+   natpath, through C06_path_function) satisfy it; a finder database whose representative function is db[.] of that
+   state therefore meets the hypothesis, and every path step is an edge the database recorded *)
+Theorem C13_path_contract_from_equivalence_database :
+  forall (iter : list Z -> list Z),
+  (forall l x, In x (iter l) <-> In x l) -> (forall l, (length (iter l) <= length l)%nat) ->
+  forall ops s rs,
+  Spec.ExtractorEquiv.nonneg_hist ops ->
+  Equiv.Model.exec iter Equiv.Model.init ops = Some (s, rs) ->
+  fpath_ok (Spec.ExtractorEquiv.natrep s) (Spec.ExtractorEquiv.natpath iter s) /\
+  forall l t, Spec.ExtractorEquiv.natrep s l = Spec.ExtractorEquiv.natrep s t ->
+    forall u v, Spec.ExtractorEquiv.consecutive (Spec.ExtractorEquiv.natpath iter s l t) u v ->
+      Equiv.Hist.recorded ops (Z.of_nat u) (Z.of_nat v).
+Proof.
+  intros iter HI HL ops s rs N E. split.
+  - intros l t R. destruct (Spec.ExtractorEquiv.extractor_path_contract iter HI HL ops s rs N E l t R) as (A & B & C & _). auto.
+  - intros l t R. destruct (Spec.ExtractorEquiv.extractor_path_contract iter HI HL ops s rs N E l t R) as (_ & _ & _ & D). exact D.
+Qed.
 
 Theorem C13_two_rule_sets : forall db1 lis1 db2 lis2 s1 s2 fuel wfuel d1 d2,
   construct db1 lis1 = COk s1 -> construct db2 lis2 = COk s2 ->
@@ -671,6 +693,28 @@ Proof.
   split; [exact W|]. exact (proj1 (Spec.GroupingInit.spec_init_ok _ _ _ W)).
 Qed.
 
+(* covers C13_path_contract_from_equivalence_database: the history 0 - 5 (two-way), 1 -> 2 -> 1 (one-way cycle),
+   connect_cycles; the path from 2 to 1 is [2; 1] along the recorded edge 2 -> 1 *)
+Definition pc_ops : list Equiv.Model.op :=
+  [Equiv.Model.TwoWay 0 5; Equiv.Model.OneWay 1 2; Equiv.Model.OneWay 2 1; Equiv.Model.Connect]%Z.
+Definition pc_db : Equiv.Model.db := Eval vm_compute in
+  match Equiv.Model.exec Equiv.Model.isort Equiv.Model.init pc_ops with Some (s, _) => s | None => Equiv.Model.init end.
+Definition pc_rs : list Equiv.Model.res := Eval vm_compute in
+  match Equiv.Model.exec Equiv.Model.isort Equiv.Model.init pc_ops with Some (_, rs) => rs | None => [] end.
+Example C13_path_contract_from_equivalence_database_nonvacuous :
+  fpath_ok (Spec.ExtractorEquiv.natrep pc_db) (Spec.ExtractorEquiv.natpath Equiv.Model.isort pc_db) /\
+  Spec.ExtractorEquiv.natpath Equiv.Model.isort pc_db 2 1 = [2; 1]%nat /\
+  Spec.ExtractorEquiv.natrep pc_db 2 = Spec.ExtractorEquiv.natrep pc_db 1.
+Proof.
+  split; [|split; vm_compute; reflexivity].
+  apply (C13_path_contract_from_equivalence_database Equiv.Model.isort Equiv.Hist.isort_In Equiv.Total.isort_len
+           pc_ops pc_db pc_rs).
+  - intros o x Ho Hx. unfold pc_ops in Ho. simpl in Ho.
+    repeat (destruct Ho as [<-|Ho]; [simpl in Hx; intuition (subst; discriminate || (apply Z.leb_le; reflexivity))|]).
+    destruct Ho.
+  - vm_compute. reflexivity.
+Qed.
+
 Print Assumptions C13_matched_pair.
 Print Assumptions C13_rule_set_reachable.
 Print Assumptions C13_rule_set_ctor_bridge_partial.
@@ -698,3 +742,4 @@ Print Assumptions C13_eqpath_finder_total_tight.
 Print Assumptions C13_harness_never_out_of_fuel.
 Print Assumptions C13_matched_pair_refuted.
 Print Assumptions C13_eqpath_raises_refuted.
+Print Assumptions C13_path_contract_from_equivalence_database.
